@@ -22,7 +22,7 @@ func fetcherBody(c *mc.Ctx) {
 	p := c.Param.(fparams)
 	size := 1 + c.Choose(2)
 	delay := []time.Duration{10 * time.Millisecond, 0}[c.Choose(2)]
-	buf := 1 + c.Choose(2)
+	buf := 1 + c.Choose(3) // 3: not a power of two
 	// one fetch may fail (error, no results) or come back empty: the fetch whose batch contains
 	// the chosen item; the results of every other batch must still come out, in order
 	failItem, failMode := -1, 0
